@@ -2,7 +2,7 @@ From Coq Require Import List NArith Bool.
 From V.gen Require Consts.
 From V.C14 Require Model Proofs.
 From V.C17 Require Model.
-From V.C16 Require Import Model Proofs Obl Bound Chan Exec Compose Comp.
+From V.C16 Require Import Model Proofs Obl Bound Chan Exec Time Compose Comp.
 Import ListNotations.
 Open Scope N_scope.
 From V.C16 Require Import Properties.
@@ -198,6 +198,21 @@ Check (C16_closed_while_outstanding :
   aget p (peers s') = None /\ futs s' = futs s /\ pdial s' = pdial s /\
   forall q x, aget q (eng s') = Some x -> In p (waiting x) ->
     owes_dial s' (negb (is_track x)) q p \/ owes_fut s' (negb (is_track x)) q p).
+Check (C16_bounded_time :
+  forall D g m es0 a e b,
+  1 <= g_alpha g -> is_tick e = false ->
+  let s0 := fst (run g (st0 m) es0) in
+  fair_run g s0 (a ++ e :: b) ->
+  timed D g s0 (restamp (now s0) [] (okeys s0)) (a ++ e :: b) ->
+  now (fst (run g s0 a)) <= now s0 + D * N.of_nat (S (length (work a)))).
+Check (C16_bounded_time_budget :
+  forall D U g m es0 a e b,
+  1 <= g_alpha g -> fresh_ids [] (es0 ++ a ++ e :: b) -> cmds_ok g es0 ->
+  evs_in_U U es0 -> evs_in_U U (a ++ e :: b) -> is_tick e = false ->
+  let s0 := fst (run g (st0 m) es0) in
+  fair_run g s0 (a ++ e :: b) ->
+  timed D g s0 (restamp (now s0) [] (okeys s0)) (a ++ e :: b) ->
+  now (fst (run g s0 a)) <= now s0 + D * N.of_nat (budget (length U) g es0)).
 Check (C16_inbound_isolated :
   forall g s e,
   inbound_ev s e ->
